@@ -185,6 +185,7 @@ CONFIGS = [
     ("non-parametric RG(3,3) d=5.0, flexibility+asperity", [((3, 3), 5.0, "np", NP_FULL, "")]),
     ("non-parametric RG(6) d=0.5, slope only", [((6,), 0.5, "np", NP_RIGID, "")]),
     ("non-parametric RG(2,3,2) d=(0.5,0.25,1.0), flexibility only", [((2, 3, 2), (0.5, 0.25, 1.0), "np", NP_NOASP, "")]),
+    ("non-parametric RG(4,6) d=(3,2) (equal extents, later axis finer), slope only", [((4, 6), (3., 2.), "np", NP_RIGID, "")]),
     ("Matern RG(4) d=0.1", [((4,), 0.1, "matern", MATERN, "")]),
     ("Matern RG(3,3) d=5.0", [((3, 3), 5.0, "matern", MATERN, "")]),
     ("product RG(4) d=0.25 x RG(4) d=2.0", [((4,), 0.25, "np", NP_FULL, "space0"), ((4,), 2.0, "np", NP_NOASP, "space1")]),
@@ -225,7 +226,7 @@ def _agree_section(chk, which):
             config.update("hartley_convention", conv)
             jft.config.update("hartley_convention", conv)
             for name, spaces in _configs(chk, which):
-                if conv == "canonical_hartley" and chk.tier == "quick" and len(spaces) == 1 and spaces[0][0] not in ((4,), (3, 3), (2, 3, 2)):
+                if conv == "canonical_hartley" and chk.tier == "quick" and len(spaces) == 1 and spaces[0][0] not in ((4,), (3, 3), (2, 3, 2), (4, 6)):
                     continue
                 try:
                     _agree(chk, f"agree: {name}", spaces)
